@@ -6,6 +6,7 @@
   hypotheses), every partition of the byte stream into reads.
 -/
 import Theorems.Lemmas.Frame
+import Theorems.TransferFits
 
 namespace Amqp.Frame
 open Amqp.Gen.FrameK
